@@ -37,7 +37,10 @@ theorem allowed_write_iff (pm : TypeState.PM) :
     TypeState.allowed pm .write = true ↔ (convPM pm).perm = .rw := by
   cases pm <;> simp [TypeState.allowed, convPM, PM.perm]
 
+/-- (hypothesis `hz` added with the rows `asRef` … `zeroize`: the `zeroize` row is offered in every
+state although it writes — `Proofs/TypeStateTable.lean`, `zeroize_not_sound`) -/
 theorem permits_allowed (pm : TypeState.PM) (lm : TypeState.LM) (ct : TypeState.Cont) (op : TypeState.Op)
+    (hz : op ≠ .zeroize)
     (h : TypeState.permits pm lm ct op = true) : TypeState.allowed pm (TypeState.access op) = true := by
   cases op <;> cases pm <;> cases lm <;> cases ct <;>
     simp_all [TypeState.permits, TypeState.allowed, TypeState.access]
@@ -74,16 +77,20 @@ end probes
 
 /-- the token that stands for a table operation: the five transitions are the harness tokens of the
 same name; every other operation is represented by THE ACCESS IT PERFORMS (a read or a write probe
-at byte `off` of the region); `useAfter` has no counterpart (it does not compile) -/
+at byte `off` of the region); `useAfter` has no counterpart (it does not compile); `zeroize` has no
+counterpart either: the kernel model has no token for `Zeroize::zeroize(&mut self)` on a protected
+region (it is NOT a plain write: it first makes the pages writable), so a `zeroize` step of a program
+is absent from the token list — see `Properties/C20.lean`, `zeroize_breaks_marker` -/
 def tokOf (i off : Nat) : TypeState.Op → Option Tok
-  | .readView | .arrayView | .index | .clone => some ⟨.rprobe off, i⟩
-  | .mutView | .resize => some ⟨.wprobe off, i⟩
+  | .readView | .arrayView | .index | .clone | .asRef | .cloneFrom | .serialize => some ⟨.rprobe off, i⟩
+  | .mutView | .resize | .asMut | .indexMut | .copyFrom | .mutArrayView => some ⟨.wprobe off, i⟩
   | .lock => some ⟨.lock, i⟩
   | .unlock => some ⟨.unlock, i⟩
   | .ro => some ⟨.ro, i⟩
   | .rw => some ⟨.rw, i⟩
   | .na => some ⟨.na, i⟩
   | .useAfter => none
+  | .zeroize => none
 
 /-- slot `i` of `s` is either consumed, or a live region in table state `(pm, lm)` holding more than
 `off` bytes; and `s` satisfies the invariant of C14 -/
@@ -222,7 +229,8 @@ theorem step_no_segv {c : Cfg} (hP : 0 < c.P) {s : State} {i off : Nat} {pm : Ty
     exact ⟨by simp, hinv', sl, hi, Or.inl hg⟩
   have hg' : sl.gone = false := by simpa using hg
   obtain ⟨hst, hoff⟩ := hcase.resolve_left hg
-  have hal := permits_allowed pm lm ct op hperm
+  have hz : op ≠ .zeroize := by rintro rfl; simp [tokOf] at ht
+  have hal := permits_allowed pm lm ct op hz hperm
   have hi' : (resetRel s).slots[i]? = some sl := hi
   have rd : TypeState.access op = .read → TypeState.next pm lm op = (pm, lm) → t = ⟨.rprobe off, i⟩ →
       (step c s t).1 ≠ .segv ∧
@@ -261,5 +269,12 @@ theorem step_no_segv {c : Cfg} (hP : 0 < c.P) {s : State} {i off : Nat} {pm : Ty
   case ro => exact tr .ro (by simp) ht.symm
   case rw => exact tr .rw (by simp) ht.symm
   case na => exact tr .na (by simp) ht.symm
+  case asRef => exact rd rfl rfl ht.symm
+  case cloneFrom => exact rd rfl rfl ht.symm
+  case serialize => exact rd rfl rfl ht.symm
+  case asMut => exact wr rfl rfl ht.symm
+  case indexMut => exact wr rfl rfl ht.symm
+  case copyFrom => exact wr rfl rfl ht.symm
+  case mutArrayView => exact wr rfl rfl ht.symm
 
 end DryocVerif.Proofs.TypeStateBridge
